@@ -11,6 +11,11 @@
 //	snapshot              String()/ToString()/GetKeys() next to reloads of files whose many
 //	                      keys all carry one generation token: one call shows one state
 //	write-back            SetValues on files with comments / blank lines / ordered keys
+//	write-back-divergent  SetValues while the file and the loaded state disagree (external
+//	                      edits not loaded yet, keys deleted earlier, defaults after a missing
+//	                      file, in-memory overrides); oracle against the file
+//	edit-during-reload    a second save lands right before / right after the library's Read
+//	                      inside one poll (own FileParser through WithParser), then quiet polls
 //	atomicity-sampler     concurrent re-reads of a large file during SetValues
 //	atomicity-crashpoints (thorough) SIGKILL at every file syscall of the write-back (strace)
 //	hostile-syntax        files on which the properties library reports an error
@@ -63,6 +68,12 @@ func main() {
 		timed(c, "tracking", func() { c.Cases("tracking", c.N(2400, 40000), func(i int, r *vlib.Rand) { trackCase(c, i, r) }) })
 	}
 	timed(c, "write-back", func() { c.Cases("write-back", c.N(pick(race, 200, 2400), pick(race, 1500, 40000)), func(i int, r *vlib.Rand) { writebackCase(c, i, r) }) })
+	timed(c, "write-back-divergent", func() {
+		c.Cases("write-back-divergent", c.N(pick(race, 150, 1600), pick(race, 1000, 24000)), func(i int, r *vlib.Rand) { divergentCase(c, i, r) })
+	})
+	timed(c, "edit-during-reload", func() {
+		c.Cases("edit-during-reload", c.N(pick(race, 150, 1600), pick(race, 1000, 24000)), func(i int, r *vlib.Rand) { midReloadCase(c, i, r) })
+	})
 	timed(c, "atomicity-sampler", func() { c.Cases("atomicity-sampler", c.N(pick(race, 2, 8), pick(race, 4, 32)), func(i int, r *vlib.Rand) { samplerCase(c, i, r) }) })
 	timed(c, "concurrency", func() { c.Cases("concurrency", c.N(pick(race, 8, 24), pick(race, 32, 160)), func(i int, r *vlib.Rand) { stressCase(c, i, r) }) })
 	timed(c, "snapshot", func() { c.Cases("snapshot", c.N(pick(race, 8, 24), pick(race, 16, 96)), func(i int, r *vlib.Rand) { snapCase(c, i, r) }) })
@@ -87,6 +98,12 @@ func main() {
 		c.Floor("reload_points_changed_with_older_mtime", n/30, c.Counter("reload_points_changed_with_older_mtime"))
 		c.Floor("final_edits_with_older_mtime", n/60, c.Counter("final_edits_with_older_mtime"))
 		c.Floor("reload_points_changed_with_equal_mtime", n/100, c.Counter("reload_points_changed_with_equal_mtime"))
+		nd := int64(c.N(1600, 24000) / c.NShards)
+		c.Floor("writebacks_with_file_and_loaded_state_disagreeing", nd/10, c.Counter("writebacks_with_file_and_loaded_state_disagreeing"))
+		c.Floor("divergent_untouched_key_checks_on_disagreeing_keys", nd/10, c.Counter("divergent_untouched_key_checks_on_disagreeing_keys"))
+		c.Floor("divergent_deleted_key_stays_deleted_checks", nd/20, c.Counter("divergent_deleted_key_stays_deleted_checks"))
+		c.Floor("mid_reload_actions_after-read", nd/20, c.Counter("mid_reload_actions_after-read"))
+		c.Floor("mid_reload_actions_before-read", nd/40, c.Counter("mid_reload_actions_before-read"))
 		c.Floor("snapshot_calls", 50, c.Counter("snapshot_calls"))
 		c.Floor("snapshot_calls_overlapping_a_reload", 10, c.Counter("snapshot_calls_overlapping_a_reload"))
 	}
